@@ -85,8 +85,12 @@ struct World {
     std::vector<MObj> objs;
     std::map<const void*, int> id_of;
     std::set<int> mcells, mraws;  // members of the explored library (model)
-    int pool[4] = {-1, -1, -1, -1};
-    bool pool_fresh[4] = {false, false, false, false};
+    int pool[5] = {-1, -1, -1, -1, -1};
+    bool pool_fresh[5] = {false, false, false, false, false};
+    // caller-owned maps kept alive over the whole history: every recursive dependency query is repeated
+    // into them after every operation (the API only inserts, it never clears the caller's map)
+    Map<Cell*> keep_cells = {};
+    Map<RawCell*> keep_raws = {};
     bool k1_used = false;
     int cellcopies = 0;
     std::string lineage;    // library copies made so far: 'S' / 'D'
@@ -540,8 +544,8 @@ enum { RENAME_PTR, RENAME_NAME, REPLACE, REMAP_LIB, REMAP_CELL, COPY_LIB, COPY_C
 // absent by-name target), a longer name extending an existing one, an unrelated name.
 static const char* NEWNAME_STD[3] = {"N1", "N2", "Z"};
 static const char* NEWNAME_PFX[3] = {"A", "ABCDE", "N1"};
-static const char* POOLNAME_STD[4] = {"P(cell 'B')", "Q(cell 'Q', by-name ref to 'Z')", "R3(raw 'R3')", "R2b(raw 'R2')"};
-static const char* POOLNAME_PFX[4] = {"P(cell 'ABC')", "Q(cell 'A', by-name ref to 'ABX')", "raw 'ABCDE'", "raw 'AB'"};
+static const char* POOLNAME_STD[5] = {"P(cell 'B')", "Q(cell 'Q', by-name ref to 'Z')", "R3(raw 'R3')", "R2b(raw 'R2')", "R1b(raw 'R1')"};
+static const char* POOLNAME_PFX[5] = {"P(cell 'ABC')", "Q(cell 'A', by-name ref to 'ABX')", "raw 'ABCDE'", "raw 'AB'", "-"};
 static const int MAXC = 5, MAXR = 3;
 
 struct GraphSys {
@@ -562,7 +566,7 @@ struct GraphSys {
         ops.push_back({RENAME_NAME, 0, 0}); ops.push_back({RENAME_NAME, 0, 2});
         ops.push_back({RENAME_NAME, 1, 0}); ops.push_back({RENAME_NAME, 1, 2});
         ops.push_back({RENAME_NAME, 2, 0}); ops.push_back({RENAME_NAME, 3, 0});
-        for (int o = 0; o < MAXC + MAXR + 2; o++) for (int p = 0; p < 4; p++) ops.push_back({REPLACE, o, p});
+        for (int o = 0; o < MAXC + MAXR + 2; o++) for (int p = 0; p < 5; p++) ops.push_back({REPLACE, o, p});
         for (int m = 0; m < NTABLES; m++) ops.push_back({REMAP_LIB, m, 0});
         for (int m = 0; m < NTABLES; m++) ops.push_back({REMAP_CELL, 0, m});
         for (int d = 0; d < 2; d++) ops.push_back({COPY_LIB, d, 0});
@@ -699,19 +703,30 @@ struct GraphSys {
             add_ref_name(w, w.pool[1], "Z");
             auto ids = load_raws(w, init == 4 ? F_RAW32 : F_RAW3);
             w.pool[2] = ids["R3"];
-            if (init == 4) w.pool[3] = ids["R2"];
+            if (init == 4) { w.pool[3] = ids["R2"]; w.pool[4] = ids["R1"]; }  // same-name raw replacements for R2 and R1
         }
-        for (int k = 0; k < 4; k++) w.pool_fresh[k] = w.pool[k] >= 0;
+        for (int k = 0; k < 5; k++) w.pool_fresh[k] = w.pool[k] >= 0;
         for (auto& o : w.objs)
             if (!o.raw) {
                 reg_cell(w, (Cell*)o.ptr);
                 o.content = content_sig(*(Cell*)o.ptr);
             }
         w.lib_props = dump::properties(lib->properties);
+        requery(w);
         return wp;
+    }
+    // repeat the recursive dependency queries of every member into the two long-lived caller-owned maps
+    static void requery(World& w) {
+        for (uint64_t i = 0; i < w.lib->cell_array.count; i++) {
+            w.lib->cell_array[i]->get_dependencies(true, w.keep_cells);
+            w.lib->cell_array[i]->get_raw_dependencies(true, w.keep_raws);
+        }
+        for (uint64_t i = 0; i < w.lib->rawcell_array.count; i++) w.lib->rawcell_array[i]->get_dependencies(true, w.keep_raws);
     }
     void destroy_world(World* wp) {
         World& w = *wp;
+        w.keep_cells.clear();
+        w.keep_raws.clear();
         for (auto* p : w.polys) { p->clear(); free_allocation(p); }
         for (auto* p : w.fpaths) { p->clear(); free_allocation(p); }
         for (auto* p : w.rpaths) { p->clear(); free_allocation(p); }
@@ -752,7 +767,7 @@ struct GraphSys {
             return s + "]";
         };
         std::string s = "L=" + w.lineage + ";F=";
-        for (int k = 0; k < 4; k++) s += w.pool_fresh[k] ? '1' : '0';
+        for (int k = 0; k < 5; k++) s += w.pool_fresh[k] ? '1' : '0';
         s += fmt(";K=%d;CC=%d|", (int)w.k1_used, w.cellcopies);
         for (int id : mc) s += desc(id, true) + ";";
         s += "|";
@@ -907,6 +922,39 @@ struct GraphSys {
             const MObj& o = w.objs[id];
             const RawCell& rc = *(RawCell*)o.ptr;
             if (o.name != (rc.name ? rc.name : "")) { fail(w, hist, op, "cell-name", {}, "raw cell name changed"); return false; }
+        }
+        // Long-lived caller-owned maps (re-queried after every operation, never cleared): every name that is
+        // a direct by-pointer dependency of a member now must designate the object that carries it now
+        // (entries of names that are no longer dependencies may stay: the API only inserts).
+        {
+            std::map<std::string, std::set<int>> wc, wr;
+            for (int id : w.mcells) {
+                // judged: names designated DIRECTLY by a member (those are set() on every re-query; names reached
+                // only through a non-member cell can legitimately keep an old entry, because the recursive query
+                // skips the subtree of a cell it already finds in the map)
+                for (int t : model_deps(w, id, false, false, false)) wc[w.objs[t].name].insert(t);
+                for (int t : model_deps(w, id, false, true, false)) wr[w.objs[t].name].insert(t);
+            }
+            for (int id : w.mraws) for (int t : model_deps(w, id, false, true, false)) wr[w.objs[t].name].insert(t);
+            for (int pass = 0; pass < 2; pass++) {
+                for (auto& kv : pass ? wr : wc) {
+                    if (kv.second.size() != 1) { R->count("persistent_map_ambiguous_name_skipped"); continue; }  // two reachable objects, one name
+                    int id = *kv.second.begin();
+                    const void* got = pass ? (const void*)w.keep_raws.get(kv.first.c_str()) : (const void*)w.keep_cells.get(kv.first.c_str());
+                    // no entry: the recursive query skips the subtree of a cell it already finds in the map, so a name
+                    // given by a later rename can be missing; only entries that exist are judged
+                    if (got == NULL) { R->count("persistent_map_name_without_entry_skipped"); continue; }
+                    if (got != w.objs[id].ptr) {
+                        auto f = w.id_of.find(got);
+                        fail(w, hist, op, "persistent-map", {{"map", jstr(pass ? "Map<RawCell*>" : "Map<Cell*>")}, {"stale_entry_is_replaced_out", jbool(f != w.id_of.end() && w.objs[f->second].replaced_out)}},
+                             "a caller-owned map that received the recursive dependency queries after every operation has, for the current dependency '" + kv.first + "', " +
+                                 (got == NULL ? std::string("no entry") : f == w.id_of.end() ? std::string("an unknown pointer") : "the object #" + std::to_string(f->second) + (w.objs[f->second].replaced_out ? " (replaced out)" : "")) +
+                                 " instead of the object that carries the name now (#" + std::to_string(id) + ")");
+                        return false;
+                    }
+                    R->count("persistent_map_entries_checked");
+                }
+            }
         }
         // independence of copy sources
         for (auto& s : w.sources) {
@@ -1281,6 +1329,7 @@ struct GraphSys {
                 w.mraws.erase(mr[op.a]);
             } break;
         }
+        if (!w.bad) requery(w);
         if (!check || w.bad) return true;
         if (!verify(w, hist, opi)) return true;
         R->count("cases");
@@ -1331,7 +1380,7 @@ static void write_raw_files() {
         write(F_RAW12, {r1, r2, r4});
     }
     write(F_RAW3, {simple("R3", 9)});
-    write(F_RAW32, {simple("R3", 9), simple("R2", 6)});
+    write(F_RAW32, {simple("R3", 9), simple("R2", 6), simple("R1", 3)});
     write(F_RAW6, {simple("ABCDE", 9), simple("AB", 6)});
 }
 
@@ -1627,7 +1676,7 @@ int main(int argc, char** argv) {
     // the depth of this search is lowered and the bound that is reported says so.
     const int NI = 7;
     const int order[NI] = {6, 5, 2, 4, 0, 3, 1};
-    const double WEIGHT[NI] = {20.8, 18.0, 3.1, 8.6, 4.6, 1.0, 19.7};  // indexed by init (init6: extrapolated from depth 4)
+    const double WEIGHT[NI] = {20.8, 18.0, 3.1, 8.6, 6.0, 1.0, 19.7};  // indexed by init (init6: extrapolated from depth 4)
     auto req = [&](int init) { return init == 6 ? depth6 : depth; };
     const double GROWTH = 7.0;
     double rate = 0, done_weight = 0, done_time = 0;  // seconds per weight unit
